@@ -379,8 +379,10 @@ def run(rep):
             handle(rep, res, dict(k='K-save', D=D, cached=cached))
     rep.end_kernel()
     rep.kernel('K-replay-oracle', functions=[F + ':Region.write_fits', F + ':Region.write_reg', F + ':Region.save', F + ':Region.load'],
-               bounds='concrete regions (empty, single pixel, multi-level, full base pixel, depth 1..5) through real astropy/healpy/pickle, before and after a query')
-    cases = [({1: []}, 1), ({1: [3]}, 1), ({2: [5]}, 2), ({1: [0], 3: [40, 41]}, 3), ({2: [1, 2], 4: [200], 5: [1000, 1001]}, 5), ({1: list(range(12))}, 2)]
+               bounds='concrete regions (empty, single pixel, multi-level, full base pixel, depth 1..7, corners just south of the equator) through real astropy/healpy/pickle, before and after a query')
+    cases = [({1: []}, 1), ({1: [3]}, 1), ({2: [5]}, 2), ({1: [0], 3: [40, 41]}, 3), ({2: [1, 2], 4: [200], 5: [1000, 1001]}, 5), ({1: list(range(12))}, 2),
+             # pixels with corners at -1 < dec < 0 and RA below 1 h (sign and leading-zero fields of the sexagesimal text)
+             ({6: [17405, 17407, 17981, 18017]}, 6), ({7: [69621, 69626]}, 7)]
     for lv, D in cases:
         for q in (False, True):
             bad, cls, detail = oracle_export(lv, D, q)
@@ -388,7 +390,7 @@ def run(rep):
             if bad:
                 rep.finding('C12/K-uniq/%s' % cls if 'moc' in cls else 'C12/K-export/%s' % cls, dict(levels=lv, D=D, query=q), detail)
     rep.end_kernel()
-    rep.not_decided += ['polygon vertices equal the HEALPix corners (healpy C++; replay oracle counts polygons only)', '.mim pickle fidelity (library; replay oracle only)']
+    rep.not_decided += ['polygon vertices equal the HEALPix corners (healpy C++ and astropy formatting: replay oracle only, incl. corners at -1 < dec < 0)', '.mim pickle fidelity (library; replay oracle only)']
 
 
 def replay(w):
